@@ -60,6 +60,7 @@ RNG_CTORS = {"Generator", "SFC64", "PCG64", "MT19937", "Philox", "default_rng", 
 CLOCK_ATTRS = {("time", "time"), ("time", "perf_counter"), ("time", "ctime"), ("time", "monotonic"), ("time", "process_time"),
                ("time", "time_ns"), ("time", "strftime"), ("time", "localtime"), ("time", "asctime"),
                ("datetime", "now"), ("datetime", "today"), ("datetime", "utcnow"), ("date", "today")}
+LOG_METHODS = {"debug", "info", "warning", "error", "critical", "verbose", "exception"}
 LISTING_ATTRS = {"glob", "rglob", "iglob", "listdir", "scandir", "iterdir", "walk"}
 THREAD_MODULES = {"threading", "multiprocessing", "concurrent", "concurrent.futures", "asyncio", "joblib"}
 
@@ -301,6 +302,14 @@ def _set_use_disposition(u, up, par):
         return "order-free consumer", "binding (its uses are listed separately)"
     if isinstance(up, ast.For) and up.iter is u:
         return "needs-proof", "for loop over the set"
+    # the value reaches nothing but the text of a log record: follow the parents up to the enclosing statement
+    st = up
+    while st is not None and not isinstance(st, ast.stmt):
+        st = par.get(st)
+    if isinstance(st, ast.Expr) and isinstance(st.value, ast.Call) and isinstance(st.value.func, ast.Attribute):
+        fn = _dotted(st.value.func).split(".")
+        if fn[-1] in LOG_METHODS and len(fn) >= 2 and fn[-2].lstrip("_") in ("log", "logger"):
+            return "order-free consumer", f"text of a log record ({'.'.join(fn[-2:])}); log output is outside the property (results and written files)"
     if isinstance(up, ast.comprehension) and up.iter is u:
         return "needs-proof", "comprehension over the set"
     return "needs-proof", f"escapes into {type(up).__name__}"
